@@ -2,6 +2,8 @@
    The value-level theorems quantify over EVERY inferrer (hence every inference flag -S/-A/-O/default and any
    future one), every pair of input strings and every history of read operations of C03.Model. *)
 From Miller Require Import Base.Bytes Base.Record C06.Model C06.Harness C03.Model C03.Proofs C03.RecordProofs C03.MovedProofs C03.Harness.
+From Miller Require Import C03.Verbs C03.VerbProofs C03.ReaderProofs.
+From Miller Require C05.Model C11.Model C12.Model.
 Open Scope Z_scope.
 
 (* reading never changes what the writer emits: for all byte strings s1 s2, all inference behaviours, all histories
@@ -98,4 +100,67 @@ Example C03_nonvacuous :
        [(B "a", B "0xff"); (B "b", B "007"); (B "c", B "x"); (B "d", B "1e3"); (B "e", B "1.500")]
      = [(B "d", CKnown (B "1e3")); (B "a", CKnown (B "0xff")); (B "bb", CKnown (B "007")); (B "e", CKnown (B "1.500"));
         (B "t", CKnown (B "int"))].
+Proof. vm_compute. repeat split; reflexivity. Qed.
+
+(* ---------------------------------------------------------------------------------------------------------------
+   Concrete verbs.  The per-verb Gallina models that C05, C11 and C12 tie to the Go code are imported unchanged
+   (C05.Model.verb_of: 18 `then`-chain state machines incl. put '$z = $x . "s"', sort -f, sort -nf/-nr, count-similar,
+   fill-down, cat -n; C11.Model: 13 record selectors; C12.Model.run_verb: cut -f/-o/-x, reorder -f/-e, rename,
+   sort-within-records, unsparsify -f, sparsify -f, nest explode across records / across fields).
+   For each of them: every output record descends from an input record with which it agrees on every field outside
+   the verb's declared write set -- same names, same bytes, same relative order. *)
+Theorem C03_verb_bystander :
+  forall v : cverb, supported v = true -> bystander (wof v) (sem v).
+Proof. exact verb_bystander. Qed.
+Print Assumptions C03_verb_bystander.
+
+(* ... and for every chain of them, of any length, over streams of any length (induction on the chain) *)
+Theorem C03_chain_bystander :
+  forall vs : list cverb, forallb supported vs = true -> bystander (wchain vs) (run_chain vs).
+Proof. exact chain_bystander. Qed.
+Print Assumptions C03_chain_bystander.
+
+(* field by field: a name outside the chain's write set is looked up with the same bytes in the output record and in
+   the input record it descends from *)
+Theorem C03_chain_unassigned_bytes :
+  forall (vs : list cverb) (l : list record) (o : record) (k : bytes),
+  forallb supported vs = true -> In o (run_chain vs l) -> wchain vs k = false ->
+  exists i, In i l /\ get k o = get k i /\ outs (wchain vs) o = outs (wchain vs) i.
+Proof. exact chain_unassigned_bytes. Qed.
+Print Assumptions C03_chain_unassigned_bytes.
+
+(* the stream-by-stream chain used above is C05's `then` chain (state machines composed record by record) *)
+Theorem C03_then_chain_is_run_chain :
+  forall (cs : list C05.Model.vcode) (l : list record),
+  C05.Model.run (C05.Model.chain_list (map C05.Model.verb_of cs)) l = run_chain (map V05 cs) l.
+Proof. exact chain05_is_run_chain. Qed.
+Print Assumptions C03_then_chain_is_run_chain.
+
+(* the reader side (RecordArena.PutDeferred as modelled by C05): a line whose names are distinct is read as it stands;
+   without de-duplication a repeated name keeps its first position and every other field keeps its bytes *)
+Theorem C03_reader_distinct_names_identity :
+  forall (dedupe : bool) (l : record), wf_record l = true -> read_line dedupe l = l.
+Proof. exact read_line_distinct. Qed.
+Print Assumptions C03_reader_distinct_names_identity.
+
+Theorem C03_reader_nodedupe_other_fields :
+  forall (l : record) (k v : bytes) (k' : bytes), k' <> k ->
+  get k' (read_line false (l ++ [(k, v)])) = get k' (read_line false l)
+  /\ get k (read_line false (l ++ [(k, v)])) = Some v.
+Proof. exact read_line_nodedupe_snoc. Qed.
+Print Assumptions C03_reader_nodedupe_other_fields.
+
+Example C03_verbs_nonvacuous :
+  let chain := [V05 (C05.Model.VPutDot (B "z") (B "x") (B "!")); V05 (C05.Model.VSortN true (B "x"));
+                V11 (SHead 2 None); V12 7 [B "y"; B "yy"] []; V05 (C05.Model.VCountSimilar (B "x")); V12 5 [B "z"] []] in
+  let input := [[(B "x", B "007"); (B "y", B "0xff"); (B "w", B "1e3")];
+                [(B "x", B "10"); (B "y", B "+5"); (B "w", B "1.500")];
+                [(B "x", B "3"); (B "y", B ".5"); (B "w", B "5.")]] in
+  forallb supported chain = true
+  /\ wchain chain (B "x") = false /\ wchain chain (B "w") = false /\ wchain chain (B "z") = true /\ wchain chain (B "y") = true
+  /\ run_chain chain input
+     = [[(B "z", B "007!"); (B "x", B "007"); (B "yy", B "0xff"); (B "w", B "1e3"); (B "count", B "1")];
+        [(B "z", B "10!"); (B "x", B "10"); (B "yy", B "+5"); (B "w", B "1.500"); (B "count", B "1")]]
+  /\ read_line false [(B "a", B "0x01"); (B "a", B "0x1F"); (B "b", B "+7.50")] = [(B "a", B "0x1F"); (B "b", B "+7.50")]
+  /\ read_line true [(B "a", B "0x01"); (B "a", B "0x1F"); (B "b", B "+7.50")] = [(B "a", B "0x01"); (B "a_2", B "0x1F"); (B "b", B "+7.50")].
 Proof. vm_compute. repeat split; reflexivity. Qed.
